@@ -35,6 +35,8 @@ static vf::Envx *g_envx=0; // current run's chooser (consulted from server threa
 static std::atomic<long> g_sent_total(0); // bytes the client has queued on the connection under test
 static std::map<int,long> g_consumed; // per server fd
 static std::atomic<long> g_read_points(0), g_write_points(0), g_partial_reads(0), g_partial_writes(0), g_eagain_reads(0), g_eagain_writes(0);
+static std::vector<long> g_forced_cuts; // absolute stream offsets at which a read on the focus connection must stop (a deterministic segmentation, no choice points)
+static std::atomic<long> g_forced_cut_reads(0);
 static std::atomic<int> g_focus_fd(-1); // only the connection under test is scripted (probe connections run free)
 static std::atomic<bool> g_next_accept_is_focus(false);
 static std::vector<long> alt_sizes(long cap){ std::vector<long> a; if(cap<=1) return a; if(cap<=192){ for(long k=1;k<cap;k++) a.push_back(k); return a; } long m[]={1,2,3,7,8,15,16,17,cap/2,255,256,4095,4096,8191,8192,16383,16384,cap-2,cap-1}; std::set<long> s; for(size_t i=0;i<sizeof(m)/sizeof(*m);i++) if(m[i]>=1&&m[i]<cap) s.insert(m[i]); a.assign(s.begin(),s.end()); return a; }
@@ -45,12 +47,13 @@ extern "C" int accept(int fd,struct sockaddr *a,socklen_t *l){ int r=syscall(SYS
 extern "C" int accept4(int fd,struct sockaddr *a,socklen_t *l,int flags){ int r=syscall(SYS_accept4,fd,a,l,flags); if(r>=0){ std::lock_guard<std::mutex> g(wire::g_mx); wire::g_server_fds.insert(r); wire::g_consumed[r]=0; if(wire::g_next_accept_is_focus.exchange(false)) wire::g_focus_fd=r; } return r; }
 extern "C" int close(int fd){ { std::lock_guard<std::mutex> g(wire::g_mx); if(wire::g_server_fds.erase(fd)){ wire::g_consumed.erase(fd); if(wire::g_focus_fd==fd) wire::g_focus_fd=-1; } } return syscall(SYS_close,fd); }
 extern "C" ssize_t readv(int fd,const struct iovec *iov,int cnt){
-	bool scripted=false; if(wire::g_explore_reads&&fd==wire::g_focus_fd){ std::lock_guard<std::mutex> g(wire::g_mx); scripted=wire::g_server_fds.count(fd)>0; }
+	bool scripted=false,forced=false; if(fd==wire::g_focus_fd){ std::lock_guard<std::mutex> g(wire::g_mx); forced=!wire::g_forced_cuts.empty(); if(wire::g_explore_reads||forced) scripted=wire::g_server_fds.count(fd)>0; }
 	if(!scripted){ ssize_t r=syscall(SYS_readv,fd,iov,cnt); if(r>0){ std::lock_guard<std::mutex> g(wire::g_mx); if(wire::g_consumed.count(fd)) wire::g_consumed[fd]+=r; } return r; }
 	long buflen=0; for(int i=0;i<cnt;i++) buflen+=iov[i].iov_len;
 	// wait until everything the client queued has arrived, so that the answer menu is the same on every replay
 	long want; { std::lock_guard<std::mutex> g(wire::g_mx); want=wire::g_sent_total-wire::g_consumed[fd]; } int avail=0; for(int spin=0;spin<40000;spin++){ ioctl(fd,FIONREAD,&avail); if(avail>=want) break; usleep(50); }
 	long cap=std::min<long>(buflen,avail); if(cap<=0) return syscall(SYS_readv,fd,iov,cnt);
+	if(forced){ long k=cap; { std::lock_guard<std::mutex> g(wire::g_mx); long pos=wire::g_consumed[fd]; for(size_t i=0;i<wire::g_forced_cuts.size();i++){ long c=wire::g_forced_cuts[i]; if(c>pos&&c<pos+k) k=c-pos; } } if(k<cap) wire::g_forced_cut_reads++; struct iovec tmp[16]; int n=0; long left=k; for(int i=0;i<cnt&&i<16&&left>0;i++){ tmp[n]=iov[i]; if((long)tmp[n].iov_len>left) tmp[n].iov_len=left; left-=tmp[n].iov_len; n++; } ssize_t r=syscall(SYS_readv,fd,tmp,n); if(r>0){ std::lock_guard<std::mutex> g(wire::g_mx); wire::g_consumed[fd]+=r; } return r; }
 	std::vector<long> alts=wire::alt_sizes(cap); bool nb=wire::is_nonblocking(fd); int choice; { std::lock_guard<std::mutex> g(wire::g_mx); wire::g_read_points++; choice= wire::g_envx? wire::g_envx->choose(1+alts.size()+(nb?1:0),"readv"):0; }
 	if(choice==0){ ssize_t r=syscall(SYS_readv,fd,iov,cnt); if(r>0){ std::lock_guard<std::mutex> g(wire::g_mx); wire::g_consumed[fd]+=r; } return r; }
 	if(choice==(int)alts.size()+1){ wire::g_eagain_reads++; errno=EAGAIN; return -1; }
